@@ -118,6 +118,8 @@ func doDump(w *World, what string) {
 		dumpExportFilters(w)
 	case what == "bce":
 		dumpBCE(w, w.Repo)
+	case what == "mapfields":
+		dumpMapFields(w)
 	case what == "blockloops":
 		br := blockReachable(w)
 		var names []string
